@@ -180,7 +180,7 @@ func (c Cfg) Options(root pfs.FileSystem) *pogreb.Options {
 // NewSess starts a recording.
 func NewSess(r *Rec, cfg Cfg, root pfs.FileSystem, dir string, id string, extra Ev) *Sess {
 	s := &Sess{R: r, Cfg: cfg, Root: root, Dir: dir, Universe: map[string][]byte{}}
-	ev := Ev{"e": "reset", "syncw": cfg.SyncW, "strict": cfg.Strict, "bg": false, "id": id, "fs": cfg.FS,
+	ev := Ev{"e": "reset", "syncw": cfg.SyncW, "strict": cfg.Strict, "bg": false, "dur": true, "id": id, "fs": cfg.FS,
 		"maxseg": cfg.MaxSeg, "minseg": cfg.MinSeg, "minfrag": cfg.MinFrag}
 	for k, v := range extra {
 		ev[k] = v
@@ -388,7 +388,7 @@ func (s *Sess) Do(o Op) error {
 		s.mu.Unlock()
 		return nil
 	}
-	if len(o.Inject) > 0 || o.Op == "compact" || o.Op == "backup" {
+	if len(o.Inject) > 0 {
 		n := 0
 		prefix := o.Op + "."
 		pogreb.VerifYield = func(point string) {
